@@ -1318,6 +1318,17 @@ func (w *World) gen(r *lib.Rand, s Snap, self bool) Op {
 				}
 			}
 		}
+		if r.Chance(8) {
+			// zero shares from a real delegator to somebody without a delegation: has to be refused whatever
+			// the allowance is (an accepted one would create an empty delegation)
+			x = big.NewInt(0)
+			if len(holders) > 0 {
+				from = holders[r.Intn(len(holders))]
+			}
+			for i := 0; i < 8 && s.Vals[v].del(to).Sign() != 0; i++ {
+				to = anyAcc()
+			}
+		}
 		return Op{K: "transferFrom", V: v, A: sp, B: from, C: to, X: x.String()}
 	case p < 92:
 		fee := new(big.Int).Mul(big.NewInt(int64(1+r.Intn(2000))), big.NewInt(1e15))
